@@ -158,6 +158,56 @@ def optedIn (env : Env) (t : Transport) : Bool := env.get (designated t)
 /-- Spec acceptor for one observation: a method that produced a keystore signature on transport `t` under `env`. -/
 def specAcceptsSigning (env : Env) (t : Transport) : Bool := optedIn env t
 
+
+/-! ### reading the variables: common/sense/ext.go EnvBool / boolString -/
+
+def truthyWords : List String := ["true", "yes", "1", "on", "enabled", "enable"]
+def falsyWords : List String := ["false", "no", "0", "off", "disabled", "disable"]
+
+/-- sense.boolString: `switch strings.ToLower(s)` — "" → unset; a truthy word → true; a falsy word → false; otherwise unparsable. -/
+def boolString (s : String) (unset unparsable : Bool) : Bool :=
+  let l := s.toLower
+  if l == "" then unset
+  else if truthyWords.contains l then true
+  else if falsyWords.contains l then false
+  else unparsable
+
+/-- sense.EnvBool on the result of os.LookupEnv (`none` = the variable is not in the environment):
+    `if !ok { return false }; return boolString(x, false, true)`. -/
+def envBool : Option String → Bool
+  | none => false
+  | some x => boolString x false true
+
+/-- Spec, the documented reading ("EnvBool returns false if empty/unset/falsy, true if otherwise non-empty"):
+    a variable opts in iff it is present, not empty and not one of the falsy spellings. -/
+def envOn : Option String → Bool
+  | none => false
+  | some x => x.toLower != "" && !falsyWords.contains x.toLower
+
+/-- the process environment restricted to the five variables, as raw values (`none` = unset, `some ""` = present but empty). -/
+structure RawEnv where
+  inproc : Option String
+  ipc : Option String
+  http : Option String
+  ws : Option String
+  all : Option String
+  deriving DecidableEq, Repr, Inhabited
+
+def RawEnv.unset : RawEnv := ⟨none, none, none, none, none⟩
+
+def RawEnv.get (r : RawEnv) : EnvVar → Option String
+  | .allowSignInproc => r.inproc
+  | .allowSignIpc => r.ipc
+  | .rpcSigningHttp => r.http
+  | .rpcSigningWs => r.ws
+  | .rpcSigning => r.all
+
+/-- what package rpc's variable initialisers compute from the process environment. -/
+def RawEnv.read (r : RawEnv) : Env := ⟨envBool r.inproc, envBool r.ipc, envBool r.http, envBool r.ws, envBool r.all⟩
+
+/-- Spec: "explicitly opted in for transport t" on the raw environment — the designated variable carries an opting-in value. -/
+def optedInRaw (r : RawEnv) (t : Transport) : Bool := envOn (r.get (designated t))
+
 /-! ### helpers for the driver -/
 
 def Method.key (m : Method) : String :=
